@@ -71,7 +71,7 @@ fn elem_str(e: &PElem) -> String {
     match e.vals.last() {
         Some(P::Scalar(s)) if s.starts_with("Str(") => {
             let inner = &s[4..s.len() - 1];
-            serde_json::from_str::<String>(inner).unwrap_or_else(|_| inner.trim_matches('"').to_string())
+            crate::view::unescape_debug(inner)
         }
         Some(_) => "\u{fffc}".to_string(),
         None => String::new(),
@@ -395,7 +395,7 @@ fn same(want: &P, got: &P) -> bool {
     }
 }
 
-fn render(p: &P) -> String {
+pub fn render(p: &P) -> String {
     match p {
         P::Scalar(s) => s.clone(),
         P::Counter(c) => format!("Counter({})", c),
